@@ -4,45 +4,68 @@ import (
 	"fmt"
 	"sort"
 	"strings"
+	"sync"
 	"testing"
 
-	"go.minekube.com/gate/pkg/edition/java/proxy/zzverif/sched"
-	"go.minekube.com/gate/pkg/edition/java/proxy/zzverif/schedrun"
+	"go.minekube.com/gate/pkg/edition/java/proxy/zzverif/dualrun"
 	"go.minekube.com/gate/pkg/edition/java/proxy/zzverif/vrt"
 	"go.minekube.com/gate/pkg/internal/future"
 )
 
-// log records harness-visible events of one execution; only one thread runs at a time, so a
-// plain slice and counter are a faithful real-time order.
+// log records harness-visible events of one execution. Under the scheduler only one thread runs at a
+// time, so the slices and the clock are a faithful real-time order. In the free-running race pass the
+// harness state is guarded by its own mutex (never held across a call into the code under test), so that
+// the race detector reports races of future.go only.
 type log struct {
-	x     *sched.X
-	clock int
+	x     *dualrun.Env
+	mu    sync.Mutex
 	cb    map[string][]int // callback name -> values it was invoked with
 	order []string
+	steps []string // composition functions, in the order they ran
+	who   []int    // scheduler thread that ran each step (scheduler pass only): shows that schedules differ
 	compl []complCall
 }
 type complCall struct{ v, call, ret int }
 
-func newLog(x *sched.X) *log { return &log{x: x, cb: map[string][]int{}} }
-func (l *log) tick() int     { l.clock++; return l.clock }
+func newLog(x *dualrun.Env) *log { return &log{x: x, cb: map[string][]int{}} }
 func (l *log) callback(name string) func(int) {
+	l.mu.Lock()
 	l.cb[name] = nil
+	l.mu.Unlock()
 	return func(v int) {
-		l.tick()
+		l.mu.Lock()
+		defer l.mu.Unlock()
 		l.cb[name] = append(l.cb[name], v)
 		l.order = append(l.order, fmt.Sprintf("%s(%d)", name, v))
 	}
 }
+
+// step records that a composition function ran.
+func (l *log) step(format string, a ...any) {
+	l.mu.Lock()
+	defer l.mu.Unlock()
+	l.steps = append(l.steps, fmt.Sprintf(format, a...))
+	if !l.x.Free() {
+		l.who = append(l.who, l.x.X.CurID())
+	}
+}
 func (l *log) complete(f *future.Future[int], v int) {
-	c := complCall{v: v, call: l.tick()}
+	c := complCall{v: v, call: l.x.Tick()}
 	f.Complete(v)
-	c.ret = l.tick()
+	c.ret = l.x.Tick()
+	l.mu.Lock()
 	l.compl = append(l.compl, c)
+	l.mu.Unlock()
 }
 
 // check is the oracle for one future: registered lists every callback registered on it.
 func (l *log) check(completedWith []int) {
 	x := l.x
+	l.mu.Lock()
+	defer l.mu.Unlock()
+	if len(l.who) > 0 {
+		x.Outcome(fmt.Sprint("ran-on", l.who))
+	}
 	var val *int
 	names := make([]string, 0, len(l.cb))
 	for n := range l.cb {
@@ -90,71 +113,144 @@ func (l *log) check(completedWith []int) {
 	x.Outcome(strings.Join(l.order, ","))
 }
 
+// free-running rounds per scenario (quick, thorough) of the supplementary -race pass
+const fq, ft = 400, 4000
+
+func c42Scenarios() []dualrun.Scenario {
+	return []dualrun.Scenario{
+		{Name: "reg2-vs-complete", Quick: -1, Thorough: -1, FreeQuick: fq, FreeThorough: ft, Body: func(x *dualrun.Env) {
+			l := newLog(x)
+			f := future.New[int]()
+			x.Go("reg", func() { f.ThenAccept(l.callback("a")); f.ThenAccept(l.callback("b")) })
+			x.Go("complete", func() { l.complete(f, 7) })
+			x.AtEnd(func() { f.ThenAccept(l.callback("late")); l.check([]int{7}) })
+		}},
+		{Name: "two-completers-one-registrar", Quick: 2, Thorough: -1, FreeQuick: fq, FreeThorough: ft, Body: func(x *dualrun.Env) {
+			l := newLog(x)
+			f := future.New[int]()
+			f.ThenAccept(l.callback("pre"))
+			x.Go("c1", func() { l.complete(f, 1) })
+			x.Go("c2", func() { l.complete(f, 2) })
+			x.Go("reg", func() { f.ThenAccept(l.callback("a")); f.ThenAccept(l.callback("b")) })
+			x.AtEnd(func() { f.ThenAccept(l.callback("late")); l.check([]int{1, 2}) })
+		}},
+		{Name: "double-complete-same-thread-vs-registrars", Quick: 2, Thorough: -1, FreeQuick: fq, FreeThorough: ft, Body: func(x *dualrun.Env) {
+			l := newLog(x)
+			f := future.New[int]()
+			x.Go("c", func() { l.complete(f, 1); l.complete(f, 2) })
+			x.Go("r1", func() { f.ThenAccept(l.callback("a")) })
+			x.Go("r2", func() { f.ThenAccept(l.callback("b")) })
+			x.AtEnd(func() {
+				l.check([]int{1, 2})
+				if vs := l.cb["a"]; len(vs) == 1 && vs[0] != 1 {
+					x.Fail("second-completion-won", "sequential Complete(1);Complete(2) yielded %d", vs[0])
+				}
+			})
+		}},
+		{Name: "compose-chain-2", Quick: 2, Thorough: -1, FreeQuick: fq, FreeThorough: ft, Body: func(x *dualrun.Env) {
+			l := newLog(x)
+			f1, f2 := future.New[int](), future.New[int]()
+			out := future.ThenCompose(f1, func(v int) *future.Future[int] { l.step("g1(%d)", v); return f2 })
+			x.Go("c1", func() { f1.Complete(10) })
+			x.Go("c2", func() { f2.Complete(20) })
+			x.Go("reg", func() { out.ThenAccept(l.callback("final")) })
+			x.AtEnd(func() {
+				if len(l.steps) != 1 || l.steps[0] != "g1(10)" {
+					x.Fail("compose-step", "composition function ran %v, want exactly [g1(10)]", l.steps)
+				}
+				l.who = nil // as before rev9: the outcome of this scenario is the callback log only
+				l.check([]int{20})
+			})
+		}},
+		{Name: "compose-chain-3", Quick: 2, Thorough: 3, FreeQuick: fq, FreeThorough: ft, Body: func(x *dualrun.Env) {
+			l := newLog(x)
+			f1, f2, f3 := future.New[int](), future.New[int](), future.New[int]()
+			mid := future.ThenCompose(f1, func(v int) *future.Future[int] { l.step("g1(%d)", v); return f2 })
+			out := future.ThenCompose(mid, func(v int) *future.Future[int] { l.step("g2(%d)", v); return f3 })
+			out.ThenAccept(l.callback("pre"))
+			x.Go("c1", func() { f1.Complete(1) })
+			x.Go("c2", func() { f2.Complete(2) })
+			x.Go("c3", func() { f3.Complete(3) })
+			x.Go("reg", func() { out.ThenAccept(l.callback("final")) })
+			x.AtEnd(func() {
+				if strings.Join(l.steps, ",") != "g1(1),g2(2)" {
+					x.Fail("compose-order", "composition functions ran %v, want [g1(1) g2(2)] in chain order", l.steps)
+				}
+				l.who = nil
+				l.check([]int{3})
+			})
+		}},
+		// ---- rev9: ThenCompose itself races with completions (the shape of chatQueue.queueTask: the chain is
+		// grown by one goroutine while the goroutine of writePacket completes earlier links) ----
+		{Name: "chain-grown-while-completing", Quick: -1, Thorough: -1, FreeQuick: fq, FreeThorough: ft, Body: func(x *dualrun.Env) {
+			l := newLog(x)
+			head := future.New[int]().Complete(0) // newChatQueue: a head that is complete from the start
+			f1 := future.New[int]()               // the write future of task 1
+			x.Go("queue", func() {
+				h1 := future.ThenCompose(head, func(v int) *future.Future[int] { l.step("t1(%d)", v); return f1 })
+				// task 2 answers with a future that is already complete (HandleAcknowledgement with nothing to forward)
+				h2 := future.ThenCompose(h1, func(v int) *future.Future[int] {
+					l.step("t2(%d)", v)
+					return future.New[int]().Complete(v + 1)
+				})
+				h2.ThenAccept(l.callback("tail"))
+			})
+			x.Go("writer", func() { l.complete(f1, 10) })
+			x.AtEnd(func() {
+				if strings.Join(l.steps, ",") != "t1(0),t2(10)" {
+					x.Fail("compose-order", "tasks ran %v, want [t1(0) t2(10)] in queue order", l.steps)
+				}
+				l.check([]int{11})
+			})
+		}},
+		{Name: "two-composers-vs-complete", Quick: 2, Thorough: -1, FreeQuick: fq, FreeThorough: ft, Body: func(x *dualrun.Env) {
+			l := newLog(x)
+			f := future.New[int]()
+			compose := func(name string) func() {
+				return func() {
+					o := future.ThenCompose(f, func(v int) *future.Future[int] {
+						l.step("g%s(%d)", name, v)
+						return future.New[int]().Complete(v * 2)
+					})
+					o.ThenAccept(l.callback(name))
+				}
+			}
+			x.Go("ca", compose("a"))
+			x.Go("cb", compose("b"))
+			x.Go("c", func() { l.complete(f, 4) })
+			x.AtEnd(func() {
+				sorted := append([]string(nil), l.steps...)
+				sort.Strings(sorted)
+				if strings.Join(sorted, ",") != "ga(4),gb(4)" {
+					x.Fail("compose-step", "composition functions ran %v, want each exactly once with 4", l.steps)
+				}
+				l.check([]int{8})
+			})
+		}},
+		// QueuePacket: the composition function itself composes on a future that a third goroutine completes
+		{Name: "nested-compose-in-task", Quick: 2, Thorough: -1, FreeQuick: fq, FreeThorough: ft, Body: func(x *dualrun.Env) {
+			l := newLog(x)
+			head := future.New[int]().Complete(0)
+			p, w := future.New[int](), future.New[int]() // nextPacket result, write future
+			x.Go("queue", func() {
+				h1 := future.ThenCompose(head, func(int) *future.Future[int] {
+					l.step("task")
+					return future.ThenCompose(p, func(v int) *future.Future[int] { l.step("write(%d)", v); return w })
+				})
+				h1.ThenAccept(l.callback("tail"))
+			})
+			x.Go("event", func() { p.Complete(5) })
+			x.Go("writer", func() { w.Complete(6) })
+			x.AtEnd(func() {
+				if strings.Join(l.steps, ",") != "task,write(5)" {
+					x.Fail("compose-order", "steps ran %v, want [task write(5)]", l.steps)
+				}
+				l.check([]int{6})
+			})
+		}},
+	}
+}
+
 func TestVerif(t *testing.T) {
-	vrt.Run(t, "C42", func(r *vrt.R) {
-		schedrun.Run(r, []schedrun.Scenario{
-			{Name: "reg2-vs-complete", Quick: -1, Thorough: -1, Body: func(x *sched.X) {
-				l := newLog(x)
-				f := future.New[int]()
-				x.Go("reg", func() { f.ThenAccept(l.callback("a")); f.ThenAccept(l.callback("b")) })
-				x.Go("complete", func() { l.complete(f, 7) })
-				x.AtEnd(func() { f.ThenAccept(l.callback("late")); l.check([]int{7}) })
-			}},
-			{Name: "two-completers-one-registrar", Quick: 2, Thorough: -1, Body: func(x *sched.X) {
-				l := newLog(x)
-				f := future.New[int]()
-				f.ThenAccept(l.callback("pre"))
-				x.Go("c1", func() { l.complete(f, 1) })
-				x.Go("c2", func() { l.complete(f, 2) })
-				x.Go("reg", func() { f.ThenAccept(l.callback("a")); f.ThenAccept(l.callback("b")) })
-				x.AtEnd(func() { f.ThenAccept(l.callback("late")); l.check([]int{1, 2}) })
-			}},
-			{Name: "double-complete-same-thread-vs-registrars", Quick: 2, Thorough: -1, Body: func(x *sched.X) {
-				l := newLog(x)
-				f := future.New[int]()
-				x.Go("c", func() { l.complete(f, 1); l.complete(f, 2) })
-				x.Go("r1", func() { f.ThenAccept(l.callback("a")) })
-				x.Go("r2", func() { f.ThenAccept(l.callback("b")) })
-				x.AtEnd(func() {
-					l.check([]int{1, 2})
-					if vs := l.cb["a"]; len(vs) == 1 && vs[0] != 1 {
-						x.Fail("second-completion-won", "sequential Complete(1);Complete(2) yielded %d", vs[0])
-					}
-				})
-			}},
-			{Name: "compose-chain-2", Quick: 2, Thorough: -1, Body: func(x *sched.X) {
-				l := newLog(x)
-				f1, f2 := future.New[int](), future.New[int]()
-				var steps []string
-				out := future.ThenCompose(f1, func(v int) *future.Future[int] { steps = append(steps, fmt.Sprintf("g1(%d)", v)); return f2 })
-				x.Go("c1", func() { f1.Complete(10) })
-				x.Go("c2", func() { f2.Complete(20) })
-				x.Go("reg", func() { out.ThenAccept(l.callback("final")) })
-				x.AtEnd(func() {
-					if len(steps) != 1 || steps[0] != "g1(10)" {
-						x.Fail("compose-step", "composition function ran %v, want exactly [g1(10)]", steps)
-					}
-					l.check([]int{20})
-				})
-			}},
-			{Name: "compose-chain-3", Quick: 2, Thorough: 3, Body: func(x *sched.X) {
-				l := newLog(x)
-				f1, f2, f3 := future.New[int](), future.New[int](), future.New[int]()
-				var steps []string
-				mid := future.ThenCompose(f1, func(v int) *future.Future[int] { steps = append(steps, fmt.Sprintf("g1(%d)", v)); return f2 })
-				out := future.ThenCompose(mid, func(v int) *future.Future[int] { steps = append(steps, fmt.Sprintf("g2(%d)", v)); return f3 })
-				out.ThenAccept(l.callback("pre"))
-				x.Go("c1", func() { f1.Complete(1) })
-				x.Go("c2", func() { f2.Complete(2) })
-				x.Go("c3", func() { f3.Complete(3) })
-				x.Go("reg", func() { out.ThenAccept(l.callback("final")) })
-				x.AtEnd(func() {
-					if strings.Join(steps, ",") != "g1(1),g2(2)" {
-						x.Fail("compose-order", "composition functions ran %v, want [g1(1) g2(2)] in chain order", steps)
-					}
-					l.check([]int{3})
-				})
-			}},
-		})
-	})
+	vrt.Run(t, "C42", func(r *vrt.R) { dualrun.Run(r, c42Scenarios()) })
 }
